@@ -19,7 +19,7 @@ RULE = ("(a) exhaustive: every condition tree with <= N connectives (N=2 quick, 
         "3x4 world; (b) random queries over 1-4 variables of two related classes (Q.p -> P): self-joins, chained attributes, object "
         "equality joins, literals, predicates over two variables, conditions mentioning only a subset of the variables "
         "(free Cartesian completion), no condition at all, every selection subset and order, selected attribute "
-        "expressions; depth<=4; caching on (default) and off; set_of(...) and an([..], ...) spellings; (c) joins written as positional / keyword arguments of a predicate-form term whose class inherits a keyword-only field (Lk(From(links), x, y)); (d) feature-interaction queries (eqlmon/ix.py): a parent, its flattened elements and a further variable, with nested an()/the() sub-queries, concatenate, for_all, predicates and membership atoms on top, evaluated twice. Non-trivial: the "
+        "expressions; depth<=4; caching on (default) and off; set_of(...) and an([..], ...) spellings; (c) joins written as positional / keyword arguments of a predicate-form term whose class inherits a keyword-only field (Lk(From(links), x, y)); (d) feature-interaction queries (eqlmon/ix.py): a parent, its flattened elements and a further variable, with nested an()/the() sub-queries, concatenate, for_all, predicates and membership atoms on top, evaluated twice; histories as in C01 (repeated evaluation, abandoned-first, an earlier complete evaluation under the other caching switch). Non-trivial: the "
         "oracle result is neither empty nor the whole product; distinct by structural hash of (query, data, config).")
 LEVEL_TEXT = ("Reference-model monitoring at the API boundary: rows returned by the real evaluation are compared, by object "
               "identity, with the brute-force filter of the Cartesian product (set always; multiset when all variables "
